@@ -95,7 +95,9 @@ class Increments(Machine):
                        "graph_tree_high_root",
                        "object_backed", "malformed_increment_refused", "active_count_lowered_between_increments",
                        "rank_deficient_with_more_samples_than_features", "one_iterator_feeds_constructor_and_increments",
-                       "integer_dtype_samples", "first_batch_of_one_sample_centred", "first_batch_of_one_sample_uncentred")
+                       "integer_dtype_samples", "first_batch_of_one_sample_centred", "first_batch_of_one_sample_uncentred",
+                       "verbose_increment", "sibling_model_built_from_parts_and_incremented",
+                       "direction_with_variance_far_below_the_cut_off")
 
     @classmethod
     def _cfg(cls, rng):
@@ -111,6 +113,8 @@ class Increments(Machine):
             if fam == "pca_vec" and rng.random() < 0.12:
                 cfg["intdata"] = 1  # whole-number data handed over as an integer array
                 cfg["scale_exp"] = 0
+            if rng.random() < 0.1:
+                cfg["flat32"] = 1   # one feature is twice another up to single-precision rounding, in every sample
             if rng.random() < 0.2:
                 # a rank-deficient beginning: for the first `flat` samples one feature is an exact multiple of another
                 cfg["flat"] = cfg["n0"] + rng.randint(0, 6)
@@ -120,6 +124,10 @@ class Increments(Machine):
             cfg.update(V=V, k=k, graph=rng.choice(GRAPHS), mode=rng.choice(["concatenation", "subtraction"]),
                        sparse=rng.random() < 0.5, bias=rng.choice([0, 0, 1]), incremental=rng.random() < 0.93)
             cfg["n0"] = 2 * k + 3 + rng.randint(0, 6)
+        if rng.random() < 0.15:
+            cfg["verbose"] = 1      # the progress-reporting option (its output goes nowhere)
+        if fam == "pca_vec" and rng.random() < 0.25:
+            cfg["sibling"] = 1      # a second model built from this one's parts is incremented in between
         if fam.endswith("_obj") and rng.random() < 0.3:
             # the caller feeds ONE iterator to the constructor and to every increment, with n_samples= each time
             cfg["stream"] = 1
@@ -201,6 +209,12 @@ class Increments(Machine):
             if cfg.get("intdata"):
                 X = np.round(X * 4.0)
                 ctx.probe("integer_dtype_samples")
+            if cfg.get("flat32") and d >= 2 and not cfg.get("intdata"):
+                # a direction whose variance is ~1e-15 of the largest: far below the decompositions' 1e-10 cut-off
+                # (three and more orders away from it on either side, so which side it falls on is not in question)
+                i, j = (int(v) for v in rs(cfg["seed"] ^ 0x32).permutation(d)[:2])
+                X[:, j] = (2.0 * X[:, i]).astype(np.float32).astype(np.float64)
+                ctx.probe("direction_with_variance_far_below_the_cut_off")
             if cfg.get("flat") and d >= 2:
                 i, j = (int(v) for v in g.permutation(d)[:2])
                 X[:cfg["flat"], j] = 2.0 * X[:cfg["flat"], i]      # exact in floating point
@@ -317,12 +331,29 @@ class Increments(Machine):
                 ctx.ok()
             return
         streamed = bool(self.cfg.get("stream")) and self.tmpl is not None
+        if self.cfg.get("sibling") and self.fam == "pca_vec" and int(self.model.n_components) >= 1:
+            # the documented way to build a model from parts: the parts are the first model's own arrays; what happens
+            # to the second model afterwards is its own business
+            try:
+                m_ = self.model
+                sib = PCAVectorModel.init_from_components(m_.components, m_.eigenvalues, m_.mean(), int(m_.n_samples), self.cfg["centred"])
+                sib.increment(self.X[STREAM - s - 1:STREAM - 1].copy() * 1.5 + 0.25)
+                self.ctx.probe("sibling_model_built_from_parts_and_incremented")
+            except Exception as ex:
+                ctx.fail("increment", "sibling_model_raised", repr(ex))
+                return
+        import contextlib as _cl
+        import io as _io
+        kwv = {"verbose": True} if self.cfg.get("verbose") else {}
+        if kwv:
+            self.ctx.probe("verbose_increment")
         try:
-            if streamed:
-                feed, kw = self._feed(chunk, True)
-                self.model.increment(feed, **kw)
-            else:
-                self.model.increment(arg)
+            with _cl.redirect_stdout(_io.StringIO()):
+                if streamed:
+                    feed, kw = self._feed(chunk, True)
+                    self.model.increment(feed, **dict(kw, **kwv))
+                else:
+                    self.model.increment(arg, **kwv)
         except Exception as ex:
             ctx.fail("increment", "increment_raised_" + self.fam, "composition %r + %d: %r" % (self.comp, s, ex))
             return
@@ -423,6 +454,10 @@ class Increments(Machine):
         if len(li) > r:
             ctx.require(float(li[r:].max()) <= 2e-7 * lb[0], "incremental_equals_batch", "pca_surplus_eigenvalues_" + tag,
                         lambda: "surplus eigenvalues %r" % li[r:].tolist())
+            # the band around the 1e-10 cut-off is not judged; an eigenvalue three orders BELOW it is unambiguous: the
+            # batch model does not have it
+            ctx.require(float(li[r:].min()) >= 1e-13 * lb[0], "incremental_equals_batch", "pca_kept_eigenvalue_far_below_cut_off_" + tag,
+                        lambda: "the incremental model keeps eigenvalues %r (largest %r), the batch model stops at %r" % (li[r:].tolist(), float(lb[0]), lb.tolist()))
         ci = np.asarray(m.components, float)
         cb = np.asarray(b.components, float)
         cb = cb[:r]
